@@ -1050,10 +1050,18 @@ def _convert_all(ph):
         return list(ex.map(_convert_one, ph, chunksize=max(1, len(ph) // (4 * vlib.NCPU))))
 
 
-def tie_cases(exe, cases):
+def tie_cases(exe, cases, chunk=1500):
     """cases: [(label, case_line)].  Runs `phases` (real front end + real type checker) and, for every case that
     reached the type checker, the extracted model on the real compiler's own `vars` + `ordered` dump.
-    -> list of dict(label, reached, real, model, agree) in the order of `cases`."""
+    -> list of dict(label, reached, real, model, agree) in the order of `cases`.  Processed in chunks: the Debug
+    dumps of a few thousand programs are several hundred megabytes."""
+    out = []
+    for i in range(0, len(cases), chunk):
+        out.extend(_tie_chunk(exe, cases[i:i + chunk]))
+    return out
+
+
+def _tie_chunk(exe, cases):
     import vlib
     import resolved_io
     lines = [c for _, c in cases]
